@@ -1018,8 +1018,7 @@ func main() {
 		emit("Definition bcdPlusRunes : list N := %s.", nlist(intList(ipmi, vs, i, "bcdPlusRunes")))
 	})
 	// map key -> function name tables
-	for _, t := range []struct{ v, name string }{{"analogDataFormatParsers", "analog_parsers"}, {"stringEncodingDecoders", "string_decoders"},
-		{"linearisationLinearisers", "linearisers"}} {
+	for _, t := range []struct{ v, name string }{{"linearisationLinearisers", "linearisers"}} {
 		t := t
 		section([]def{{t.name, "list (N * string)", "[]"}}, func() {
 			vs, i := findVar(ipmi, t.v)
